@@ -293,7 +293,7 @@ impl Srv {
       "Update" => {
         let mut ups = vec![];
         let mut logged = BTreeMap::new();
-        for (n, c) in op["u"].as_object().unwrap() {
+        for (n, c) in op["u"].as_object().cloned().unwrap_or_default().iter() {
           let m = self.m(n);
           let c = &normalize(c);
           ups.push((m, instantiate(c)));
@@ -475,7 +475,7 @@ pub fn replay(args: &[String]) {
     histories += 1;
     let mut files = BTreeMap::new();
     let mut logged = BTreeMap::new();
-    for (n, c) in ops[0]["files"].as_object().unwrap() {
+    for (n, c) in ops[0]["files"].as_object().cloned().unwrap_or_default().iter() {
       let c = normalize(c);
       files.insert(n.clone(), instantiate(&c));
       logged.insert(n.clone(), c);
